@@ -436,7 +436,16 @@ class Check(PropertyCheck):
                   "is tunnel payload, not a credential presented to the proxy) — credential_header_removed speaks about the "
                   "request on which authentication happened. 'authenticated' is a WeakKeyDictionary: the model never removes "
                   "entries and assumes client ids are not reused. Reverse mode opens its upstream connection eagerly before "
-                  "any request (no bytes are written) — the oracle counts bytes and CONNECT targets, not that open.")
+                  "any request (no bytes are written) — the oracle counts bytes and CONNECT targets, not that open."
+                  " Lenient branches of the oracle (each is decided by the model tie instead): a request whose credential header is "
+                  "not a single strict `Basic <token68>` field (several fields, odd whitespace, lenient base64, no valid UTF-8) is "
+                  "'unclear' and neither its acceptance nor its refusal is judged; requests inside an established HTTP CONNECT tunnel "
+                  "are judged at the CONNECT; an unauthenticated request may be answered 400 (misplaced CONNECT), 413 (declared body "
+                  "above body_size_limit) or not at all when an earlier step closed the connection; what an htpasswd validator accepts "
+                  "is read from the stored hash with the hash library itself (bcrypt treats the password as a C string: \"\\x00\" "
+                  "matches the hash of \"\"); with upstream_auth also set, a forwarded field of the credential header's name that "
+                  "carries exactly the configured upstream credential is UpstreamAuth's, not the client's; a case is skipped when "
+                  "the HTTP/1 parser did not hand the generated header fields to the addon verbatim.")
     technique = "Lean 4 proof (trace induction with an authentication invariant) + end-to-end differential correspondence through world.py with the real ProxyAuth addon"
     rule = ("scenario = validator (none/any/single/htpasswd-sha1 table) x 1-2 client connections with a proxy mode each "
             "(regular, upstream, reverse, transparent, socks5) x <=4 (quick) / <=6 steps interleaved over the connections; "
